@@ -86,8 +86,9 @@ BeginDo(s, c) ==
                         !.snap = s.objs, !.plive = s.live]
     IN CASE c.cls = "Init" ->
               IF s.internal = 0
-              THEN [s1 EXCEPT !.call.pc = "strm_init", !.usable = FALSE]       \* lzma_strm_init must allocate
-              ELSE [NextCoderInit(s1, c.k) EXCEPT !.call.pc = "body", !.usable = FALSE]
+              THEN [s1 EXCEPT !.call.pc = "strm_init", !.usable = FALSE, !.pend = FALSE]   \* lzma_strm_init must allocate
+              \* (stream_encoder_mt_init clears thread_error first: failures of the previous use are forgotten)
+              ELSE [NextCoderInit(s1, c.k) EXCEPT !.call.pc = "body", !.usable = FALSE, !.pend = FALSE]
          [] c.cls \in {"Code", "Update", "Async"} -> [s1 EXCEPT !.call.pc = "code"]
          [] c.cls = "End" -> [s1 EXCEPT !.call.pc = "end", !.usable = FALSE]
          [] OTHER -> [s1 EXCEPT !.call.pc = "obj"]
@@ -219,7 +220,10 @@ RetDo(s, ret, same) ==
                             !.last = [cls |-> c.cls, k |-> c.k, ret |-> ret, failed |-> c.failed,
                                       thr |-> ThreadedNow(s) /\ c.cls \in HandleClasses]]
     IN CASE c.pc = "early_fail" -> fin(s)
-         [] c.pc = "body" -> fin([s EXCEPT !.usable = (ret = "OK"), !.pend = FALSE])
+         \* a worker of the reused threaded coder that fails while it is being stopped during this very call leaves
+         \* its error behind: it is reported by a later lzma_code() of the new stream
+         [] c.pc = "body" -> fin([s EXCEPT !.usable = (ret = "OK"),
+                                           !.pend = s.pend /\ ret = "OK" /\ ~c.oldThr /\ c.k \in Threaded])
          [] c.pc = "code" -> fin([s EXCEPT !.pend = IF ret = "MEM_ERROR" THEN FALSE ELSE (@ \/ c.failed) /\ (s.init \in Threaded)])
          [] c.pc = "end" -> fin([s EXCEPT !.pend = FALSE, !.usable = FALSE])
          [] c.pc = "obj" /\ (c.failed \/ ret # "OK") -> fin(s)
